@@ -29,8 +29,8 @@ def s1(ctx, rep):
     f = P.method("SynchronousHyperbandBracketManager", "next_job")
     cfg = cfg_of(f)
     rets = [n for n in cfg.nodes if n.kind == "stmt" and isinstance(n.ast, ast.Return)]
-    if len(rets) < 2:
-        raise AnchorError("next_job: expected a return inside the scan and one after creating a bracket")
+    if not rets:
+        raise AnchorError("next_job: no return found")
     for n in rets:
         v = n.ast.value
         ok = isinstance(v, ast.Tuple) and len(v.elts) == 2
@@ -41,7 +41,11 @@ def s1(ctx, rep):
     # falling off the scan creates a new bracket (no path returns without a slot)
     cr = ctx.nodes(f, ctx.sel_call(selfcall="_create_new_bracket"), "must", 0)
     last = [n for n in rets if not any(p.kind == "for" and n.stmt in list(stmts_in(p.ast.body)) for p in cfg.nodes)]
-    ok = bool(cr) and bool(last) and all(cfg.path(cfg.entry, n.id, deleted=cr) is None for n in last) and \
+    # from the exhausted scan (the loop's exit edge) every path to a return passes the creation; a return reached by leaving the scan
+    # early (break) has its slot from the scan
+    heads = [p for p in cfg.nodes if p.kind == "for"]
+    exits = [s_ for h_ in heads for s_, l_ in cfg.succ[h_.id] if l_ != "iter" and not (isinstance(l_, str) and l_ == "exc")]
+    ok = bool(cr) and bool(last) and bool(exits) and all(cfg.path(exits, n.id, deleted=cr, skip_labels=("exc",)) is None for n in last) and \
         cfg.path(cfg.entry, cfg.exit, deleted={n.id for n in rets}, skip_labels=("exc",)) is None
     rep.put(ok, "S1", "must_precede", "SynchronousHyperbandBracketManager.next_job: when no open bracket has a free slot a new bracket is created", f, None, "")
 
@@ -119,6 +123,35 @@ def _slot_writes(cfg):
             and isinstance(n.ast.value, ast.Tuple) and len(n.ast.value.elts) == 2 and U(n.ast.value.elts[1]).endswith(".metric_val")]
 
 
+def _pending_count(text):
+    """the text of an atom's operand counts the handed-out positions of the rung that have no metric value yet: the method that
+    does so, or the count written out - sum(<entry's metric> is None for <entry> in rung[:self._first_free_pos])"""
+    if text == "self.num_pending_slots()":
+        return True
+    try:
+        e = ast.parse(text, mode="eval").body
+    except SyntaxError:
+        return False
+    if not (isinstance(e, ast.Call) and isinstance(e.func, ast.Name) and e.func.id in ("sum", "len") and len(e.args) == 1
+            and isinstance(e.args[0], (ast.GeneratorExp, ast.ListComp)) and len(e.args[0].generators) == 1):
+        return False
+    g = e.args[0].generators[0]
+    is_none = lambda c: isinstance(c, ast.Compare) and len(c.ops) == 1 and isinstance(c.ops[0], ast.Is) and U(c.comparators[0]) == "None"
+    counted = (e.func.id == "sum" and is_none(e.args[0].elt) and not g.ifs) or (len(g.ifs) == 1 and is_none(g.ifs[0]))
+    prefix = isinstance(g.iter, ast.Subscript) and isinstance(g.iter.slice, ast.Slice) and g.iter.slice.lower is None \
+        and g.iter.slice.upper is not None and U(g.iter.slice.upper) == "self._first_free_pos"
+    return counted and prefix
+
+
+def rung_complete(at):
+    """(all positions handed out, none pending) as far as the atoms say"""
+    handed_out = any(a[0] == "le" and a[1].startswith("len(") and a[2] == "self._first_free_pos" for a in at)
+    none_pending = any(a[0] == "eq" and a[3] is True and ((a[1] == "0" and _pending_count(a[2])) or (a[2] == "0" and _pending_count(a[1]))) for a in at) or \
+        any(a[0] == "le" and _pending_count(a[1]) and a[2] == "0" for a in at) or \
+        any(a[0] == "truth" and _pending_count(a[1]) and a[2] is False for a in at)
+    return handed_out, none_pending
+
+
 def s3(ctx, rep):
     """a rung is left behind exactly when it is complete - all positions handed out and none pending - and only then is the next one
     built; stated on the conditions that dominate the actions (a flag variable, nested tests or guard clauses are the same thing)"""
@@ -136,12 +169,7 @@ def s3(ctx, rep):
     if not adv or not pr:
         raise AnchorError("SynchronousBracket.on_result: advance of the rung index / promotion call not found")
 
-    def complete(at):
-        handed_out = any(a[0] == "le" and a[1].startswith("len(") and a[2] == "self._first_free_pos" for a in at)
-        none_pending = any(a[0] == "eq" and a[3] is True and {a[1], a[2]} == {"0", "self.num_pending_slots()"} for a in at) or \
-            any(a[0] == "le" and a[1] == "self.num_pending_slots()" and a[2] == "0" for a in at) or \
-            any(a[0] == "truth" and a[1] == "self.num_pending_slots()" and a[2] is False for a in at)
-        return handed_out, none_pending
+    complete = rung_complete
     for what, nodes_ in (("the rung index advances", adv), ("the next rung is built", list(pr))):
         miss = set()
         for n_ in nodes_:
